@@ -182,25 +182,42 @@ func init() {
 	})
 	reg("(*reflect.rtype).FieldByName", func(i *interpreter, fr *frame, args []value) value {
 		t := args[0].(rtype).t
-		st, ok := t.Underlying().(*types.Struct)
-		if !ok {
+		if _, ok := t.Underlying().(*types.Struct); !ok {
 			reflectPanic("reflect: FieldByName of non-struct type %s", t)
 		}
 		name := strArg(args[1])
-		for k := 0; k < st.NumFields(); k++ {
-			if st.Field(k).Name() == name {
-				f := intrinsics["(*reflect.rtype).Field"](i, fr, []value{args[0], k})
-				return tuple{f, true}
-			}
-		}
-		// promoted fields are looked up through the embedded structs: not modelled
-		for k := 0; k < st.NumFields(); k++ {
-			if st.Field(k).Anonymous() {
-				unsupportedf("reflect.Type.FieldByName through an embedded field")
-			}
-		}
 		zero := structure{"", "", iface{}, "", uintptr(0), []value(nil), false}
-		return tuple{zero, false}
+		var pkg *types.Package
+		if n, ok := t.(*types.Named); ok {
+			pkg = n.Obj().Pkg()
+		}
+		obj, index, _ := types.LookupFieldOrMethod(t, false, pkg, name)
+		f, ok := obj.(*types.Var)
+		if !ok || f == nil || !f.IsField() {
+			return tuple{zero, false}
+		}
+		// walk the index path to the struct that declares the field (tag)
+		cur := t
+		tag := ""
+		for n, k := range index {
+			if p, ok := cur.Underlying().(*types.Pointer); ok {
+				cur = p.Elem()
+			}
+			st := cur.Underlying().(*types.Struct)
+			if n == len(index)-1 {
+				tag = st.Tag(k)
+			}
+			cur = st.Field(k).Type()
+		}
+		pkgPath := ""
+		if !f.Exported() && f.Pkg() != nil {
+			pkgPath = f.Pkg().Path()
+		}
+		idx := make([]value, len(index))
+		for n, k := range index {
+			idx[n] = k
+		}
+		return tuple{structure{f.Name(), pkgPath, i.mkRType(f.Type()), tag, uintptr(0), idx, f.Anonymous()}, true}
 	})
 	// appendVals follows the built-in append: in place when the capacity allows
 	appendVals := func(r rval, xs []value, xt func(int) types.Type) rval {
